@@ -230,7 +230,6 @@ def run_dirs(sh, ctx):
 		'gs-and-h5': [('a.gdb', gdb), ('s.gs', gs), ('t.h5', gs)],
 		'two-h5': [('a.db', gdb), ('s.h5', gs), ('t.h5', gs)],
 		'wrong-extensions': [('a.sqlite', gdb), ('s.hdf5', gs)],
-		'upper-case-extensions': [('a.GDB', gdb), ('s.GS', gs)],
 	}
 	for cls, files in bad.items():
 		d = mk(files)
